@@ -148,6 +148,7 @@ func (d *docServer) close() {
 // Env is one running service with its sources.
 type Env struct {
 	run      string
+	nonce    string
 	hist     History
 	dir      string
 	rulesDir string
@@ -213,7 +214,7 @@ func startEnv(h History, o Options) (*Env, error) {
 	}
 
 	e := &Env{
-		run: h.ID, hist: h, dir: dir, rulesDir: filepath.Join(dir, "rules"), tmpDir: filepath.Join(dir, "staging"),
+		run: h.ID, nonce: fmt.Sprintf("%d-%s", os.Getpid(), filepath.Base(dir)), hist: h, dir: dir, rulesDir: filepath.Join(dir, "rules"), tmpDir: filepath.Join(dir, "staging"),
 		kind: map[string]string{}, widx: map[string]*int{}, mark: map[string]*int{},
 		hc: &http.Client{
 			Timeout:   60 * time.Second,
@@ -302,20 +303,15 @@ func (e *Env) preAndStart(providers map[string]any) error {
 }
 
 func (e *Env) stop() {
-	t0 := time.Now()
-
+	// idle keep-alive connections of the request goroutines would delay the shutdown of the service
 	e.hc.CloseIdleConnections()
 
 	if e.app != nil {
 		e.app.Stop()
 	}
-	t1 := time.Now()
 
 	if e.docs != nil {
 		e.docs.close()
-	}
-	if os.Getenv("VERIF_E2E_DEBUG") != "" {
-		fmt.Fprintf(os.Stderr, "stop: app %v docs %v\n", t1.Sub(t0), time.Since(t1))
 	}
 
 	e.hc.CloseIdleConnections()
@@ -340,7 +336,7 @@ func (e *Env) logWrite(st Step, class, mode string) {
 // apply performs one environment step. The write event is logged (sequence number taken)
 // before the operation that makes the new content visible.
 func (e *Env) apply(st Step) error {
-	body := content(st, *e.widx[st.Src]+1)
+	body := content(st, *e.widx[st.Src]+1, e.nonce)
 
 	if e.kind[st.Src] == "http" {
 		class := st.C
@@ -415,7 +411,12 @@ func (e *Env) get(path string) (string, error) {
 	case resp.StatusCode == http.StatusNotFound:
 		return "norule", nil
 	case resp.StatusCode == http.StatusOK && resp.Header.Get("X-Rule") != "":
-		return resp.Header.Get("X-Rule"), nil
+		tag, nonce, _ := strings.Cut(resp.Header.Get("X-Rule"), "~")
+		if nonce != e.nonce {
+			return "", fmt.Errorf("%w: foreign response %q (this run is %s)", ErrInfra, resp.Header.Get("X-Rule"), e.nonce)
+		}
+
+		return tag, nil
 	default:
 		return fmt.Sprintf("status-%d", resp.StatusCode), nil
 	}
